@@ -19,9 +19,10 @@ const (
 	linExpireAll
 	linDeleteAll
 	linOps
+	linCleanup = linOps // a janitor cleanup cycle; only in the *_stale compositions
 )
 
-var linNames = [...]string{"Read", "Write", "Delete", "ExpireAll", "DeleteAll"}
+var linNames = [...]string{"Read", "Write", "Delete", "ExpireAll", "DeleteAll", "cleanup cycle"}
 
 type linState struct {
 	present bool
@@ -60,6 +61,12 @@ func linApply(op, wval int, st linState) (linObs, linState) {
 	case linExpireAll:
 		if st.present {
 			st.e = 2
+		}
+		return linObs{5, 0, 0}, st
+	case linCleanup:
+		// DeleteExpiredAfter is 5ns in these compositions: an entry expired 10ns ago goes, one expiring "now" stays
+		if st.present && st.e == 1 {
+			return linObs{5, 0, 0}, linState{}
 		}
 		return linObs{5, 0, 0}, st
 	default:
@@ -123,6 +130,9 @@ func linRun(b *verifBackend, op, wval int, now int64) linObs {
 	case linExpireAll:
 		b.expAll(ctx)
 		return linObs{5, 0, 0}
+	case linCleanup:
+		b.cleanup()
+		return linObs{5, 0, 0}
 	default:
 		b.delAll(ctx)
 		return linObs{5, 0, 0}
@@ -137,7 +147,7 @@ func linEq(o linObs, x linObs) bool {
 }
 
 func linConfig(lfu bool) Config {
-	cfg := Config{TimeToLive: UnlimitedTTL, ExpirationJitter: -1}
+	cfg := Config{TimeToLive: UnlimitedTTL, ExpirationJitter: -1, DeleteExpiredAfter: 5}
 	if lfu {
 		cfg.EvictionStrategy = EvictLeastFrequentlyUsed
 	}
@@ -146,15 +156,23 @@ func linConfig(lfu bool) Config {
 
 // two threads, one operation each
 func verifL_Lin2(kind int, stale bool) {
-	opA := verifChoice("opA", linOps)
-	opB := verifChoice("opB", linOps)
+	nOps := linOps
+	if stale {
+		nOps = linOps + 1 // + cleanup cycle
+	}
+	opA := verifChoice("opA", nOps)
+	opB := verifChoice("opB", nOps)
 	present := verifChoice("present", 2) == 1
 	lfu := false
 	if stale {
 		// the pre-stored entry has already expired and the cache keeps usage counters (LFU)
 		lfu = verifChoice("lfu", 2) == 1
 	}
+	// known finding (SyncMap only): the janitor checks an entry and then deletes BY KEY, a Write that
+	// completes in between is deleted (sync.Map has no CompareAndDelete before go1.20)
+	verifClass("syncmap_cleanup_vs_write", kind == 1 && ((opA == linCleanup && opB == linWrite) || (opA == linWrite && opB == linCleanup)))
 	b := verifNewBackend(kind, linConfig(lfu))
+	b.trait.expirationsSet = 1 // dated entries exist: the janitor's scan is enabled
 	now := verifInt64("now")
 	verifAssume(now >= verifT0 && now <= verifT1)
 	verifClockFn = func() int64 { return now }
